@@ -20,7 +20,7 @@ def run(rep, tier, seed):
     from harness.c09 import load_log_all
     wd = workdir(pid, "shapes", wipe=True)
     shapes = 0
-    for cfg in (["MC_Shapes.cfg", "MC_Fields.cfg", "MC_FieldsMaps.cfg", "MC_FieldsTexts.cfg"] if tier == "quick" else ["MC_Shapes.cfg", "MC_Shapes6.cfg", "MC_Fields.cfg", "MC_FieldsMaps.cfg", "MC_FieldsTexts.cfg"]):
+    for cfg in (["MC_Shapes.cfg", "MC_Fields.cfg", "MC_FieldsMaps.cfg", "MC_FieldsTexts.cfg", "MC_FieldsPrefixes.cfg"] if tier == "quick" else ["MC_Shapes.cfg", "MC_Shapes6.cfg", "MC_Fields.cfg", "MC_FieldsMaps.cfg", "MC_FieldsTexts.cfg", "MC_FieldsPrefixes.cfg"]):
         out = os.path.join(wd, "shapes.out")
         r = run_tlc("MC_Shapes" if "Shapes" in cfg else "MC_Fields", cfg=os.path.join(SPEC, cfg), stdout_path=out, timeout=2400)
         if not r.ok or r.invariant_violated:
